@@ -254,3 +254,98 @@ var ruleWallClock = &Rule{
 }
 
 func init() { register(ruleWallClock) }
+
+// R-DIGITRANGE (C16): a digit is 0 to 9.
+//
+// Where package exec classifies a character of a formatted number as a digit
+// by a range test whose lower end is '1' and whose upper end is '9', the same
+// character must also be compared with '0' in that function: a count of the
+// digits before the decimal point that skips the zeros takes 100 for a
+// one-digit number, and `.decimal(2,0)` accepts it.
+var ruleDigitRange = &Rule{
+	Name: "R-DIGITRANGE", NeedSSA: true,
+	Doc: "in package exec, a character compared against both '1' (as a lower bound) and '9' (as an upper bound) is also compared with '0' in the same function: a digit test that leaves the zero out counts the digits of 100 as one, so a value outside the declared precision of `.decimal(p,s)` is returned instead of an error",
+	Run: func(p *Prog) *RuleOut {
+		out := newOut("R-DIGITRANGE")
+		n := 0
+		for _, fn := range p.execFuncs() {
+			type cmp struct {
+				v  ssa.Value
+				k  int64
+				op token.Token
+				at token.Pos
+			}
+			var cs []cmp
+			for _, b := range fn.Blocks {
+				for _, ins := range b.Instrs {
+					bo, ok := ins.(*ssa.BinOp)
+					if !ok {
+						continue
+					}
+					switch bo.Op {
+					case token.LSS, token.LEQ, token.GTR, token.GEQ, token.EQL, token.NEQ:
+					default:
+						continue
+					}
+					if k, ok := constInt(bo.Y); ok {
+						cs = append(cs, cmp{bo.X, k, bo.Op, bo.Pos()})
+					} else if k, ok := constInt(bo.X); ok {
+						// constant on the left: mirror the operator
+						op := bo.Op
+						switch op {
+						case token.LSS:
+							op = token.GTR
+						case token.LEQ:
+							op = token.GEQ
+						case token.GTR:
+							op = token.LSS
+						case token.GEQ:
+							op = token.LEQ
+						}
+						cs = append(cs, cmp{bo.Y, k, op, bo.Pos()})
+					}
+				}
+			}
+			ord := 0
+			for _, lo := range cs {
+				// v >= '1'  (or v > '0' is a test that mentions the zero: fine)
+				if !(lo.k == '1' && (lo.op == token.GEQ || lo.op == token.LSS)) {
+					continue
+				}
+				if bt, ok := lo.v.Type().Underlying().(*types.Basic); !ok || bt.Info()&types.IsInteger == 0 {
+					continue
+				}
+				hasNine, hasZero := false, false
+				for _, o := range cs {
+					if !sameValue(o.v, lo.v) {
+						continue
+					}
+					if o.k == '9' && (o.op == token.LEQ || o.op == token.GTR) {
+						hasNine = true
+					}
+					if o.k == '0' {
+						hasZero = true
+					}
+				}
+				if !hasNine {
+					continue
+				}
+				n++
+				ord++
+				key := fmt.Sprintf("%s: digit range #%d", fnName(fn), ord)
+				if hasZero {
+					out.ok(key, p.pos(lo.at), fnName(fn), "the character is compared with '0' as well")
+				} else {
+					out.viol(key, p.pos(lo.at), fnName(fn), "a character is taken for a digit only from '1' to '9' and is never compared with '0': zeros are not counted, so the number of digits before the decimal point of 100 is one and a value outside the declared precision passes")
+				}
+			}
+		}
+		out.Counts["digit_range_tests"] = n
+		if n == 0 {
+			out.ok("digit ranges include the zero", "path/exec", "", "no '1'..'9' range test in the package")
+		}
+		return out
+	},
+}
+
+func init() { register(ruleDigitRange) }
